@@ -3,7 +3,7 @@
    vector, size() computed as (blocks - 1) * blockSize + size of the last block, operator[] by
    index / blockSize and index % blockSize, push_back / pop_back moving blocks between the index and
    the free vector, resize, clear, operator=, copy construction, and swap (which exchanges the two
-   vectors but not the const m_blockSize).  Specification: a list.  Definitions only. *)
+   vectors and the block size).  Specification: a list.  Definitions only. *)
 From Coq Require Import List Arith Bool.
 Require Import XV.GenCont XV.ContVecDefs XV.ContMapDefs.
 Import ListNotations.
@@ -51,7 +51,7 @@ Definition dpush_all (d : xdeq) (l : list nat) : xdeq := fold_left dpush l d.
 Definition dassign (d r : xdeq) : xdeq := dpush_all (dclear d) (delems r).
 Definition dcopy (r : xdeq) : xdeq := dpush_all (new_deq (q_bs r)) (delems r).
 Definition dctor (n bs : nat) : xdeq := dpush_n n 0 (new_deq bs).
-Definition dswap_into (a b : xdeq) : xdeq := mkdeq (q_bs a) (q_blocks b) (q_free b).
+Definition dswap_into (a b : xdeq) : xdeq := mkdeq (q_bs b) (q_blocks b) (q_free b).   (* a after a.swap(b): block size included *)
 
 (* operator[](i) = x : the block index / blockSize, position index % blockSize *)
 Definition set_block (d : xdeq) (i : nat) (x : nat) : xdeq :=
